@@ -15,7 +15,7 @@
 from collections import OrderedDict
 import re
 
-eval_reg = re.compile(r"\beval\((?P<rule>[^)]*)\)")
+eval_reg = re.compile(r"\beval\s*\(\s*(?P<rule>[^)]*?)\s*\)")
 
 
 def escape_assertion(s):
